@@ -379,9 +379,12 @@ def run_c10(prop, tier, seed, t0):
     for tname, target in (("host", None), ("s390x", "s390x-unknown-linux-gnu"), ("i686", "i686-unknown-linux-gnu")):
         args = [["--shard", str((seed * 37 + k * 53) % tot), "--nshards", str(tot)] for k in range(per)]
         jobs += buf_miri("getters", args, "miri-" + tname, seed, target=target, timeout=2400)
+    # the native-endian rows completely (reduced implementors / patterns / paths) on the big-endian target: the
+    # `cfg!(target_endian = "big")` arms of the _ne getters run nowhere else
+    jobs += buf_miri("getters", [["--only-ne", "--lite", "--shard", str(k), "--nshards", "8"] for k in range(8)], "miri-s390x-ne", seed, target="s390x-unknown-linux-gnu", timeout=2400)
     rule = ("exhaustive table: each of the 38 get_X and 38 try_get_X methods (u8..i128, f32/f64, uint/int with nbytes 0..=9; be/le/ne) x 8 value patterns (00.., ff.., 80 00.., 7f ff.., ..80, 01 02 03.., 2 pseudo-random) "
             "x 11 implementors (slice, Bytes, BytesMut, Cursor, wrapped VecDeque, Seg, Chain, Chain(&mut Seg), Take(Chain(SegMulti)), Seg with every byte in its own chunk, Take(Chain(slice, endless source)); for empty input also io::Cursor positioned past its data / at 2^32+1 / at u64::MAX) x every position of one chunk boundary before/inside/after the value (a second boundary for widths>=4) x call path (dyn, &mut T, Box<T>) "
-            "x every shortfall 0..width-1; oracle = from_{be,le,ne}-style reference decode with arithmetic sign extension, Err{requested,available}, cursor position and left-over bytes. The native table is complete; Miri (host, s390x big-endian, i686) interprets a seeded slice of it. "
+            "x every shortfall 0..width-1; oracle = from_{be,le,ne}-style reference decode with arithmetic sign extension, Err{requested,available}, cursor position and left-over bytes. The native table is complete; Miri (host, s390x big-endian, i686) interprets a seeded slice of it, and all native-endian rows (reduced implementor / pattern / path set) on s390x. "
             "A cell = (type+endianness | width | implementor | path | boundary class / short).")
     return run_and_finish(prop, tier, seed, t0, jobs, rule, key="getter_calls", exhaustive=True,
                           assumptions=["the reference decoder in harness/src/bufx/getters.rs", "_ne methods are compared with the target's endianness (big-endian reached only under Miri s390x)"])
